@@ -125,7 +125,9 @@ def np_mean(I, a, k):
         return x.np_mean(I, axis)
     t = as_tensor(I, x)
     if t.size == 0:
-        raise Unsupported("mean of empty array (nan)")
+        if axis is None:
+            return NAN          # numpy: RuntimeWarning 'Mean of empty slice', result nan
+        raise Unsupported("mean of empty array along an axis")
     s = reduce_axis(I, t, axis, lambda p, q: ops.binop(I, "+", p, q), 0)
     n = t.size if axis is None else t.shape[axis]
     return ops.binop(I, "/", s, n)
@@ -345,6 +347,75 @@ def make_numpy(extra=None):
             acc = ops.binop(I, "+", acc, t.get((i, i)))
         return acc
     A["trace"] = Builtin("np.trace", trace)
+
+    def einsum(I, a, k):
+        """np.einsum on fixed-shape arrays, explicit or implicit output, no ellipsis"""
+        spec = a[0]
+        if not isinstance(spec, str) or "." in spec:
+            raise Unsupported("np.einsum with this subscript form")
+        spec = spec.replace(" ", "")
+        ins, _, out = spec.partition("->")
+        terms = ins.split(",")
+        arrs = [as_tensor(I, x) for x in a[1:]]
+        if len(terms) != len(arrs) or any(len(t) != x.ndim for t, x in zip(terms, arrs)):
+            raise PyExc("ValueError", ("einsum operands do not match the subscripts",))
+        dims = {}
+        for t, x in zip(terms, arrs):
+            for ch, n in zip(t, x.shape):
+                if dims.setdefault(ch, n) != n:
+                    raise PyExc("ValueError", ("einsum: inconsistent dimension for index " + ch,))
+        if "->" not in spec:
+            out = "".join(sorted(ch for ch in dims if ins.replace(",", "").count(ch) == 1))
+        summed = [ch for ch in dims if ch not in out]
+        import itertools
+        oshape = tuple(dims[ch] for ch in out)
+        data = []
+        for oidx in itertools.product(*[range(n) for n in oshape]):
+            env = dict(zip(out, oidx))
+            acc = 0
+            for sidx in itertools.product(*[range(dims[ch]) for ch in summed]):
+                env.update(zip(summed, sidx))
+                prod = 1
+                for t, x in zip(terms, arrs):
+                    prod = ops.binop(I, "*", prod, x.get(tuple(env[ch] for ch in t)))
+                acc = ops.binop(I, "+", acc, prod)
+            data.append(acc)
+        if not oshape:
+            return data[0]
+        return Tensor(oshape, data)
+    A["einsum"] = Builtin("np.einsum", einsum)
+
+    def isclose(I, a, k):
+        """|a - b| <= atol + rtol * |b| elementwise (numpy defaults rtol=1e-5, atol=1e-8), exact over the reals"""
+        from fractions import Fraction
+        rtol = k.get("rtol", a[2] if len(a) > 2 else Fraction(1, 100000))
+        atol = k.get("atol", a[3] if len(a) > 3 else Fraction(1, 100000000))
+        x, y = a[0], a[1]
+
+        def one(p_, q_):
+            d = ops.binop(I, "-", p_, q_)
+            ad = d if not isinstance(d, Sym) else mk(z3.If(d.t >= 0, d.t, -d.t))
+            if not isinstance(d, Sym):
+                ad = abs(d)
+            aq = abs(q_) if not isinstance(q_, Sym) else mk(z3.If(q_.t >= 0, q_.t, -q_.t))
+            return ops.compare(I, "LtE", ad, ops.binop(I, "+", atol, ops.binop(I, "*", rtol, aq)))
+        if isinstance(x, Tensor) or isinstance(y, Tensor):
+            x, y = as_tensor(I, x), as_tensor(I, y)
+            from ..values import broadcast_get, broadcast_shapes, iter_idx
+            shp = broadcast_shapes(x.shape, y.shape)
+            return Tensor(shp, [one(broadcast_get(x, shp, i_), broadcast_get(y, shp, i_)) for i_ in iter_idx(shp)], "bool")
+        return one(x, y)
+    A["isclose"] = Builtin("np.isclose", isclose)
+
+    def allclose(I, a, k):
+        r = isclose(I, a, k)
+        if isinstance(r, Tensor):
+            acc = True
+            for e in r.data:
+                acc = ops.sym_and(acc, e)
+            return acc
+        return r
+    A["allclose"] = Builtin("np.allclose", allclose)
 
     def array(I, a, k):
         x = a[0]
